@@ -1,6 +1,7 @@
 package main
 
 import (
+	"go/token"
 	"go/types"
 	"sort"
 	"strings"
@@ -82,6 +83,84 @@ type directInfo struct {
 	readsRefGlobal bool     // loads a package-level variable that holds references
 	callees []*ssa.Function
 	sigs    []*types.Signature
+	ownFresh func(ssa.Value) bool // the slice value can only refer to an array allocated by this activation
+}
+
+// ownFreshSlices: a slice value refers to an array allocated by this activation when it is nil, a make, an append /
+// reslice of such a value, or the contents of a non-escaping local all of whose assignments are such values.
+func ownFreshSlices(fn *ssa.Function, fr *Frame) func(ssa.Value) bool {
+	stores := map[*ssa.Alloc][]ssa.Value{}
+	for _, b := range fn.Blocks {
+		for _, in := range b.Instrs {
+			if st, ok := in.(*ssa.Store); ok {
+				if a, ok := st.Addr.(*ssa.Alloc); ok {
+					stores[a] = append(stores[a], st.Val)
+				}
+			}
+		}
+	}
+	// greatest fixed point: start from "fresh" for every candidate and strike out until stable
+	state := map[ssa.Value]bool{}
+	get := func(v ssa.Value) bool {
+		if c, isC := v.(*ssa.Const); isC {
+			return c.IsNil()
+		}
+		return state[v]
+	}
+	rule := func(v ssa.Value) bool {
+		switch v := v.(type) {
+		case *ssa.MakeSlice:
+			return true
+		case *ssa.Slice:
+			if _, isSl := types.Unalias(v.X.Type()).Underlying().(*types.Slice); isSl {
+				return get(v.X)
+			}
+		case *ssa.Phi:
+			for _, e := range v.Edges {
+				if !get(e) {
+					return false
+				}
+			}
+			return true
+		case *ssa.Call:
+			if b, isB := v.Call.Value.(*ssa.Builtin); isB && b.Name() == "append" && len(v.Call.Args) > 0 {
+				return get(v.Call.Args[0])
+			}
+		case *ssa.UnOp:
+			if a, isA := v.X.(*ssa.Alloc); isA && v.Op == token.MUL && fr.isCell[a] {
+				if _, isSl := types.Unalias(deref(a.Type())).Underlying().(*types.Slice); isSl {
+					for _, sv := range stores[a] {
+						if !get(sv) {
+							return false
+						}
+					}
+					return true
+				}
+			}
+		}
+		return false
+	}
+	var cands []ssa.Value
+	for _, b := range fn.Blocks {
+		for _, in := range b.Instrs {
+			if v, isV := in.(ssa.Value); isV {
+				if _, isSl := types.Unalias(v.Type()).Underlying().(*types.Slice); isSl {
+					cands = append(cands, v)
+					state[v] = true
+				}
+			}
+		}
+	}
+	for changed := true; changed; {
+		changed = false
+		for _, v := range cands {
+			if state[v] && !rule(v) {
+				state[v] = false
+				changed = true
+			}
+		}
+	}
+	return get
 }
 
 // addrRoot resolves the root of an address expression: either a local alloc (possibly escaping) or heap names.
@@ -169,6 +248,7 @@ func (p *Program) direct(fn *ssa.Function) *directInfo {
 	}
 	fr := &Frame{fn: fn}
 	fr.classifyAllocs()
+	d.ownFresh = ownFreshSlices(fn, fr)
 	add := func(hs []string) {
 		for _, h := range hs {
 			d.heaps[h] = true
@@ -268,7 +348,13 @@ func (p *Program) directCall(d *directInfo, c *ssa.CallCommon, add func([]string
 		switch b.Name() {
 		case "append", "copy":
 			if sl, ok := types.Unalias(c.Args[0].Type()).Underlying().(*types.Slice); ok {
-				add([]string{p.heapElemName(sl.Elem())})
+				if d.ownFresh != nil && d.ownFresh(c.Args[0]) {
+					// the destination is a slice this activation built itself (make / nil / its own appends):
+					// only cells of arrays allocated by this activation are written
+					d.fresh[p.heapElemName(sl.Elem())] = true
+				} else {
+					add([]string{p.heapElemName(sl.Elem())})
+				}
 			}
 		case "delete", "clear":
 			if mt, ok := types.Unalias(c.Args[0].Type()).Underlying().(*types.Map); ok {
